@@ -38,6 +38,11 @@ OBLIGATIONS = [
                "thorough": [{"S": a, "G": b, "_label": "S%d,G%d" % (a, b)} for (a, b) in _SG_T]},
         desc="Segmentation with only a guessed segment size G (real size S): first request is the guessed segment; a wrong guess "
              "(WrongSegmentError/BadSegmentNumberError) is retried once with the real size; output is still exactly file[offset:offset+size]"),
+    chx("segmentation_bad_guess", "C04_h", "h_segmentation_guess", timeout=T,
+        bounds={"quick": {"maxsegs": 2, "bad_guess": True}, "thorough": {"maxsegs": 3, "bad_guess": True}},
+        cases=[{"S": a, "G": b, "_label": "S%d,G%d" % (a, b)} for (a, b) in ((3, 2), (5, 1), (4, 1))],
+        desc="first read on a fresh node, offset > 0, the guessed segment number lies beyond the last real segment: the node answers BadSegmentNumberError, "
+             "Segmentation retries once with the real segment size and the read fires exactly once with exactly file[offset:offset+size]"),
     chx("segmentation_wrong_segment", "C04_h", "h_segmentation_wrong_segment", timeout=T,
         desc="_got_segment: a segment that does not contain the first wanted byte is never written; read fails with WrongSegmentError; no retry when the size was not a guess"),
     chx("segmentation_pause_stop", "C04_h", "h_segmentation_pause_stop", timeout=T,
